@@ -314,9 +314,10 @@ VH_MAIN_BEGIN
         size_t rd = n_ + (sterm ? 1 : 0);             /* read extent of src */
         size_t wr = base + n_ + 1;                     /* written extent of dest (elements) */
         size_t d0 = in.doff, s0 = in.soff;
-        int obj_disjoint = (d0 + dmax <= s0) || (s0 + rd <= d0);
+        int obj_disjoint = ((d0 + dmax <= s0) || (s0 + rd <= d0)) && d0 != s0; /* identical pointers: not judged here */
         int rw_intersect = !((d0 + (wr < dmax ? wr : dmax) <= s0) || (s0 + rd <= d0 + base));
-        int prec = dmax > 0 && dmax <= RMAX && (!HAS_SLEN || slen <= RMAX) && (!IS_CAT || dterm_);
+        int prec = dmax > 0 && dmax <= RMAX && (!HAS_SLEN || slen <= RMAX) && (!IS_CAT || dterm_) && !ncat0 &&
+                   !(HAS_SLEN && in.sbos_known && slen * sizeof(T) > srcbos);
         (void)dl_;
         if (prec && obj_disjoint) {
             int fits = base + n_ + 1 <= dmax && (sterm || HAS_SLEN);
@@ -340,7 +341,7 @@ VH_MAIN_BEGIN
                 if (i >= d0 && i < d0 + dmax)
                     CHECK("C07", arena[i] == 0, "ESOVRLP but dest not cleared");
         }
-        if (rc == EOK && in.doff != in.soff) {
+        if (rc == EOK && in.doff != in.soff && !ncat0) {
             /* never a silently corrupted copy */
             for (unsigned i = 0; i < NA; i++)
                 if (i >= d0 && i < d0 + dmax) {
